@@ -1,5 +1,6 @@
 // ---- shims/prelude.rs: helpers every unit uses (trusted: A-std, A-fmt) -----
 use vstd::arithmetic::power::pow;
+use vstd::arithmetic::div_mod::*;
 
 // N6 targets
 #[verifier::external_body]
@@ -118,5 +119,45 @@ pub proof fn lemma_trunc_div_real(n: int, d: int)
                 n < 0,
                 d > 0,
         ;
+    }
+}
+
+pub proof fn lemma_euc_neg_divisor(x: int, b: int)
+    requires b < 0
+    ensures x / b == -(x / (-b)), x % b == x % (-b)
+{
+    lemma_fundamental_div_mod(x, b);
+    lemma_fundamental_div_mod(x, -b);
+    let q1 = x / b; let r1 = x % b;
+    assert(0 <= r1 < -b) by (nonlinear_arith) requires r1 == x % b, b < 0;
+    assert(x == (-b) * (-q1) + r1) by (nonlinear_arith) requires x == b * q1 + r1;
+    lemma_fundamental_div_mod_converse(x, -b, -q1, r1);
+}
+
+/// Rust's `/` and `%` on signed machine integers (vstd's rust_div / rust_rem) are truncated division
+pub proof fn lemma_rust_div(a: int, b: int)
+    requires b != 0
+    ensures rust_div(a, b) == trunc_div(a, b), rust_rem(a, b) == trunc_rem(a, b), rust_rem(a, b) == 0 ==> rust_div(a, b) * b == a,
+        a >= 0 ==> -a <= rust_div(a, b) <= a, a < 0 ==> a <= rust_div(a, b) <= -a, a >= 0 ==> -a <= rust_rem(a, b) <= a, a < 0 ==> a <= rust_rem(a, b) <= -a,
+        (b != -1 || a > i64::MIN) && i64::MIN <= a <= i64::MAX ==> i64::MIN <= rust_div(a, b) <= i64::MAX
+{
+    let x = if a >= 0 { a } else { -a };
+    lemma_fundamental_div_mod(x, b);
+    if b < 0 { lemma_euc_neg_divisor(x, b); lemma_fundamental_div_mod(x, -b); }
+    if a == 0 { lemma_div_of0(b); if b < 0 { lemma_div_of0(-b); } lemma_small_mod(0, if b > 0 { b as nat } else { (-b) as nat }); }
+    let q = rust_div(a, b); let r = rust_rem(a, b);
+    let bb = if b > 0 { b } else { -b };
+    lemma_div_pos_is_pos(x, bb); lemma_div_is_ordered_by_denominator(x, 1, bb); lemma_div_basics(x); lemma_mod_bound(x, bb); lemma_fundamental_div_mod(x, bb);
+    assert(0 <= x / bb <= x);
+    assert(0 <= x % bb <= x) by (nonlinear_arith) requires x == bb * (x / bb) + x % bb, 0 <= x / bb, bb > 0, 0 <= x % bb < bb, x >= 0;
+    assert(q == (if a >= 0 { x / b } else { -(x / b) }));
+    assert(r == (if a >= 0 { x % b } else { -(x % b) }));
+    assert(q == trunc_div(a, b));
+    assert(a == b * q + r) by (nonlinear_arith)
+        requires x == b * (x / b) + x % b, x == (if a >= 0 { a } else { -a }), q == (if a >= 0 { x / b } else { -(x / b) }), r == (if a >= 0 { x % b } else { -(x % b) });
+    assert(r == 0 ==> q * b == a) by (nonlinear_arith) requires a == b * q + r;
+    if a == i64::MIN && b != -1 && b != 1 {
+        // |q| <= |a| / 2
+        assert(x / bb <= x / 2) by { lemma_div_is_ordered_by_denominator(x, 2, bb); }
     }
 }
